@@ -229,7 +229,7 @@ def make_items(tier, seed):
     for n, m in itertools.product((1, 2, 3), repeat=2):
         for shape in ("none", "one", "per-algorithm", "per-task", "per-pair"):
             combos.append((n, m, shape))
-    reps = 1 if tier == "quick" else 14
+    reps = 1 if tier == "quick" else 40
     items = []
     for rep in range(reps):
         for n, m, shape in combos:
